@@ -852,7 +852,7 @@ func (t *Term) leafString() string {
 	return fmt.Sprintf("t%d", t.ID)
 }
 
-func symName(n string) string { return "|" + strings.NewReplacer("|", "_", "\\", "_").Replace(n) + "|" }
+func symName(n string) string { return "|v." + strings.NewReplacer("|", "_", "\\", "_").Replace(n) + "|" }
 
 func (t *Term) isLeaf() bool { return t.Op == OConst || t.Op == OSym }
 
